@@ -230,6 +230,15 @@ fn gen_env(r: &mut SplitMix64, base_clock: i64) -> Env {
 
 /// clock jump between two steps
 fn jump(r: &mut SplitMix64, t: i64) -> i64 {
+    // never before 1970-01-12: a system clock before the Unix epoch is not a situation the tool can
+    // meet (chrono's `Utc::now()` panics on it), so a backward jump is floored
+    jump_raw(r, t).max(MIN_CLOCK)
+}
+
+/// earliest simulated wall-clock value (seconds since the epoch)
+pub const MIN_CLOCK: i64 = 1_000_000;
+
+fn jump_raw(r: &mut SplitMix64, t: i64) -> i64 {
     match r.range(0, 9) {
         0..=2 => t + r.range(1, 50),
         3..=4 => {
@@ -266,7 +275,7 @@ pub fn generate(seed: u64, i: u64, tier: u32, methods: &[String]) -> Scenario {
     let mut r = SplitMix64::for_run(seed ^ 0xC19, i);
     let mut inputs = gen_inputs(&mut r, methods, tier);
     // 1970..2100 (the shim's clock); the tool only uses it for defaulted dates
-    let mut clock = r.range(0, 4_102_444_800);
+    let mut clock = r.range(MIN_CLOCK, 4_102_444_800);
     if r.chance(10) {
         // a few seconds before a UTC midnight / year end
         let y = r.range(1971, 2099) as i32;
